@@ -497,7 +497,7 @@ def run(ctx):
     rnd = Stream('random-programs', 'seeded random programs (<= 12 statements, <= 4 variables, terms of length <= 6, '
                  'indices <= 12, int/float/complex dyadic coefficients, forced aliasing in in-place statements); '
                  'after every statement all variables are compared exactly; distinct = distinct programs')
-    nprog = budget(ctx.tier, 60, 900)
+    nprog = budget(ctx.tier, 60, 3000)
     if ctx.drift:
         nprog = max(nprog, 300)
     for cls in CLASSES:
